@@ -1101,3 +1101,231 @@ Proof.
 Qed.
 
 End MNTM.
+
+(* ================= validity, verdicts of the multitape machine ================= *)
+Section MNTMVerdict.
+Variable m : mntm.
+Hypothesis Hvalid : valid_mntm m = true.
+
+Lemma assocl_In {B} k (l : list (list nat * B)) v : assocl k l = Some v -> In (k, v) l.
+Proof.
+  induction l as [|[k' v'] r IH]; simpl; [discriminate|].
+  destruct (eqb_list Nat.eqb k k') eqn:E.
+  - apply (eqb_list_ok Nat.eqb eqb_nat_ok) in E. subst. intro H. inversion H. left. reflexivity.
+  - intro H. right. apply IH. exact H.
+Qed.
+
+Lemma valid_final_no_delta q ss : In q (mt_finals m) -> mt_delta m q ss = None.
+Proof.
+  intro Hq. unfold valid_mntm in Hvalid. apply andb_true_iff in Hvalid. destruct Hvalid as [H1 _].
+  rewrite forallb_forall in H1. specialize (H1 q Hq). apply negb_true_iff, memb_false in H1.
+  unfold mt_delta. destruct (assoc q (mt_trans m)) as [row|] eqn:E; [|reflexivity].
+  exfalso. apply H1. eapply assoc_Some_key. exact E.
+Qed.
+
+Lemma valid_nonempty q ss : mt_delta m q ss <> Some [].
+Proof.
+  unfold valid_mntm in Hvalid. apply andb_true_iff in Hvalid. destruct Hvalid as [_ H2].
+  rewrite forallb_forall in H2. unfold mt_delta.
+  destruct (assoc q (mt_trans m)) as [row|] eqn:E; [|discriminate].
+  intro Hs. apply assoc_In in E. apply assocl_In in Hs.
+  specialize (H2 _ E). simpl in H2. rewrite forallb_forall in H2. specialize (H2 _ Hs). discriminate.
+Qed.
+
+Definition mreach_final (w : list nat) : Prop :=
+  exists k z, mreach m k (mt_start m w) z /\ mt_final m z.
+
+Lemma mntm_accepts_spec fuel w :
+  (mntm_accepts m fuel w = Ok true -> mreach_final w) /\
+  (mntm_accepts m fuel w = Ok false -> ~ mreach_final w) /\
+  (mntm_accepts m fuel w = Ok true \/ mntm_accepts m fuel w = Ok false \/ mntm_accepts m fuel w = Err Fuel).
+Proof.
+  unfold mntm_accepts. destruct (mntm_stepwise m fuel w) as [ys o] eqn:E.
+  destruct (mntm_stepwise_sound m w fuel ys o E) as [S1 [_ S3]]. simpl snd.
+  destruct o as [cl|e]; simpl.
+  - split; [|split; [discriminate|auto]]. intros _. destruct S3 as [Hin [Hf _]].
+    destruct (S1 cl Hin) as [k Hk]. exists k, (abs_mcfg cl). split; assumption.
+  - destruct e; try contradiction; simpl.
+    + split; [discriminate|]. split; [|auto]. intros _ [k [z [Hr Hf]]].
+      apply (S3 k z Hr). split; [exact Hf|]. apply valid_final_no_delta. exact Hf.
+    + exfalso. destruct S3 as [c [_ Hd]]. exact (valid_nonempty _ _ Hd).
+    + split; [discriminate|]. split; [discriminate|auto].
+Qed.
+
+End MNTMVerdict.
+
+(* ================= one deterministic table, three simulators ================= *)
+Section Cross.
+Variable m : dtm.
+
+Lemma assoc_map_snd {B C} (f : B -> C) k (l : list (nat * B)) :
+  assoc k (map (fun p => (fst p, f (snd p))) l) = option_map f (assoc k l).
+Proof.
+  induction l as [|[k' v] r IH]; simpl; [reflexivity|].
+  destruct (Nat.eqb k k'); [reflexivity|exact IH].
+Qed.
+
+Lemma assocl_map_single {B C} (f : B -> C) s (l : list (nat * B)) :
+  assocl [s] (map (fun p => ([fst p], f (snd p))) l) = option_map f (assoc s l).
+Proof.
+  induction l as [|[k' v] r IH]; simpl; [reflexivity|].
+  rewrite andb_true_r. destruct (Nat.eqb s k'); [reflexivity|exact IH].
+Qed.
+
+Lemma nt_delta_of_dtm q s :
+  nt_delta (ntm_of_dtm m) q s = match dt_delta m q s with Some a => [a] | None => [] end.
+Proof.
+  unfold nt_delta, dt_delta, ntm_of_dtm. cbn [nt_trans].
+  rewrite (assoc_map_snd (fun row => map (fun sa => (fst sa, [snd sa])) row)).
+  destruct (assoc q (dt_trans m)) as [row|]; [|reflexivity]. simpl.
+  rewrite (assoc_map_snd (fun a : act => [a])). destruct (assoc s row); reflexivity.
+Qed.
+
+Lemma mt_delta_of_dtm q s :
+  mt_delta (mntm_of_dtm m) q [s] =
+  match dt_delta m q s with
+  | Some a => Some [(fst (fst a), [(snd (fst a), snd a)])]
+  | None => None
+  end.
+Proof.
+  unfold mt_delta, dt_delta, mntm_of_dtm. cbn [mt_trans].
+  induction (dt_trans m) as [|[q0 row] r IH]; simpl; [reflexivity|].
+  destruct (Nat.eqb q q0); [|exact IH]. clear IH.
+  induction row as [|[s0 a] row IHr]; simpl; [reflexivity|].
+  rewrite andb_true_r. destruct (Nat.eqb s s0); [reflexivity|exact IHr].
+Qed.
+
+Lemma nreach_of_dtm k : forall c z,
+  nreach (ntm_of_dtm m) k c z <-> exists z', dsteps m k c = Some z' /\ zcfg_eq z' z.
+Proof.
+  induction k as [|k IH]; intros c z.
+  - simpl. split.
+    + intro H. inversion H; subst. exists c. split; [reflexivity|assumption].
+    + intros [z' [H1 H2]]. inversion H1; subst. apply nr_0. exact H2.
+  - split.
+    + intro H. inversion H as [|k' c0 c1 c' Hs Hr]; subst.
+      destruct Hs as [q' [s [d [Hin [Hq Hz]]]]]. rewrite nt_delta_of_dtm in Hin.
+      destruct (dt_delta m (fst c) (snd c 0%Z)) as [a|] eqn:Hd; [|destruct Hin].
+      destruct Hin as [Ha|[]]. subst a.
+      apply IH in Hr. destruct Hr as [z' [Hz' Hze]].
+      assert (He : zcfg_eq (q', zact (snd c) s d) c1) by (split; [auto|apply zeq_sym; exact Hz]).
+      pose proof (dsteps_cong m k _ _ He) as Hc. rewrite Hz' in Hc.
+      simpl. unfold dstep. rewrite Hd.
+      destruct (dsteps m k (q', zact (snd c) s d)) as [z''|]; [|contradiction].
+      exists z''. split; [reflexivity|]. eapply zcfg_eq_trans; eassumption.
+    + intros [z' [Hz' Hze]]. simpl in Hz'. unfold dstep in Hz'.
+      destruct (dt_delta m (fst c) (snd c 0%Z)) as [[[q' s] d]|] eqn:Hd; [|discriminate].
+      eapply nr_S; [|apply IH; exists z'; split; [exact Hz'|exact Hze]].
+      exists q', s, d. rewrite nt_delta_of_dtm, Hd. split; [left; reflexivity|].
+      split; [reflexivity|apply zeq_refl].
+Qed.
+
+Definition lift1 (c : zcfg) : mzcfg := (fst c, [snd c]).
+
+Lemma mreach_of_dtm k : forall c z,
+  mreach (mntm_of_dtm m) k (lift1 c) z <-> exists z', dsteps m k c = Some z' /\ mzcfg_eq (lift1 z') z.
+Proof.
+  induction k as [|k IH]; intros c z.
+  - simpl. split.
+    + intro H. inversion H; subst. exists c. split; [reflexivity|assumption].
+    + intros [z' [H1 H2]]. inversion H1; subst. apply mr_0. exact H2.
+  - split.
+    + intro H. inversion H as [|k' c0 c1 c' Hs Hr]; subst.
+      destruct Hs as [alts [q' [mv [Hd [Hin [Hq Hz]]]]]].
+      cbn [lift1 fst snd zheads map] in Hd. rewrite mt_delta_of_dtm in Hd.
+      destruct (dt_delta m (fst c) (snd c 0%Z)) as [[[q1 s] d]|] eqn:Hdd; [|discriminate].
+      cbn [fst snd] in Hd. inversion Hd; subst alts. destruct Hin as [Ha|[]]. inversion Ha; subst q' mv.
+      assert (He : mzcfg_eq (lift1 (q1, zact (snd c) s d)) c1).
+      { split; [cbn; auto|]. apply F2zeq_sym. exact Hz. }
+      apply (mreach_cong_l _ _ _ _ _ (mzcfg_eq_sym _ _ He)) in Hr.
+      apply IH in Hr. destruct Hr as [z' [Hz' Hze]].
+      exists z'. split; [|exact Hze]. simpl. unfold dstep. rewrite Hdd. exact Hz'.
+    + intros [z' [Hz' Hze]]. simpl in Hz'. unfold dstep in Hz'.
+      destruct (dt_delta m (fst c) (snd c 0%Z)) as [[[q' s] d]|] eqn:Hd; [|discriminate].
+      eapply mr_S; [|apply (IH (q', zact (snd c) s d)); exists z'; split; [exact Hz'|exact Hze]].
+      exists [(q', [(s, d)])], q', [(s, d)].
+      cbn [lift1 fst snd zheads map]. rewrite mt_delta_of_dtm, Hd.
+      split; [reflexivity|]. split; [left; reflexivity|]. split; [reflexivity|].
+      apply F2zeq_refl.
+Qed.
+
+Lemma valid_ntm_of_dtm : valid_dtm m = true -> valid_ntm (ntm_of_dtm m) = true.
+Proof.
+  unfold valid_dtm, valid_ntm, ntm_of_dtm. cbn [nt_finals nt_trans]. rewrite map_map. simpl. auto.
+Qed.
+
+Lemma valid_mntm_of_dtm : valid_dtm m = true -> valid_mntm (mntm_of_dtm m) = true.
+Proof.
+  unfold valid_dtm, valid_mntm, mntm_of_dtm. cbn [mt_finals mt_trans]. intro H.
+  apply andb_true_iff. split.
+  - rewrite map_map. simpl. exact H.
+  - apply forallb_forall. intros qr Hqr. apply in_map_iff in Hqr. destruct Hqr as [qr0 [<- _]].
+    cbn [snd]. apply forallb_forall. intros e He. apply in_map_iff in He. destruct He as [sa [<- _]].
+    reflexivity.
+Qed.
+
+Definition dreaches_final (w : list nat) : Prop := exists k, dreach_final m w k.
+
+Lemma nreach_final_of_dtm w k : nreach_final (ntm_of_dtm m) w k <-> dreach_final m w k.
+Proof.
+  unfold nreach_final, dreach_final. split.
+  - intros [z [Hr Hf]]. apply nreach_of_dtm in Hr. destruct Hr as [z' [Hz' [Hq _]]].
+    exists z'. split; [exact Hz'|]. unfold dt_final, nt_final in *. rewrite Hq. exact Hf.
+  - intros [z [Hz Hf]]. exists z. split; [|exact Hf].
+    apply nreach_of_dtm. exists z. split; [exact Hz|apply zcfg_eq_refl].
+Qed.
+
+Lemma mreach_final_of_dtm w : mreach_final (mntm_of_dtm m) w <-> dreaches_final w.
+Proof.
+  unfold mreach_final, dreaches_final, dreach_final.
+  change (mt_start (mntm_of_dtm m) w) with (lift1 (dt_start m w)). split.
+  - intros [k [z [Hr Hf]]]. apply mreach_of_dtm in Hr. destruct Hr as [z' [Hz' [Hq _]]].
+    exists k, z'. split; [exact Hz'|]. unfold dt_final, mt_final in *. cbn [lift1 fst] in Hq.
+    rewrite Hq. exact Hf.
+  - intros [k [z [Hz Hf]]]. exists k, (lift1 z). split; [|exact Hf].
+    apply mreach_of_dtm. exists z. split; [exact Hz|apply mzcfg_eq_refl].
+Qed.
+
+Lemma cross_model_agreement w f1 f2 f3 b1 b2 b3 : valid_dtm m = true ->
+  dtm_accepts m f1 w = Ok b1 ->
+  ntm_accepts (ntm_of_dtm m) f2 w = Ok b2 ->
+  mntm_accepts (mntm_of_dtm m) f3 w = Ok b3 ->
+  b1 = b2 /\ b2 = b3.
+Proof.
+  intros Hv H1 H2 H3.
+  assert (D : if b1 then dreaches_final w else ~ dreaches_final w).
+  { destruct b1.
+    - apply dtm_accept_iff in H1. destruct H1 as [k [_ Hk]]. exists k. exact Hk.
+    - intros [k Hk]. exact (dtm_reject_never_final m f1 w H1 k Hk). }
+  assert (N : if b2 then dreaches_final w else ~ dreaches_final w).
+  { destruct b2.
+    - apply ntm_accept_iff in H2. destruct H2 as [k [_ Hk]]. exists k. apply nreach_final_of_dtm. exact Hk.
+    - intros [k Hk]. apply nreach_final_of_dtm in Hk. exact (ntm_reject_never_final _ f2 w H2 k Hk). }
+  assert (M : if b3 then dreaches_final w else ~ dreaches_final w).
+  { destruct (mntm_accepts_spec _ (valid_mntm_of_dtm Hv) f3 w) as [Ma [Mr _]]. destruct b3.
+    - apply mreach_final_of_dtm. exact (Ma H3).
+    - intro Hd. apply (Mr H3). apply mreach_final_of_dtm. exact Hd. }
+  destruct b1, b2, b3; try (split; reflexivity); exfalso; tauto.
+Qed.
+
+End Cross.
+
+Section MNTMVisits.
+Variable m : mntm.
+
+(* when the BFS ends with the rejection exception, every reachable configuration was dequeued *)
+Lemma mntm_reject_visits_all w fuel ys : mntm_stepwise m fuel w = (ys, Err Reject) ->
+  forall k z, mreach m k (mt_start m w) z -> exists c, In c ys /\ mzcfg_eq (abs_mcfg c) z.
+Proof.
+  unfold mntm_stepwise. intro E. destruct (mntm_start_abs m w) as [Hwf Hst].
+  destruct (mntm_bfs_reject m fuel [] [mntm_start m w] ys) as [I1 I2].
+  - intros c [Hc|[]]. subst. exact Hwf.
+  - intros p [].
+  - exact E.
+  - simpl in I1, I2. intros k z Hr.
+    assert (Hr' : mreach m k (abs_mcfg (mntm_start m w)) z)
+      by (eapply mreach_cong_l; [apply mzcfg_eq_sym; exact Hst|exact Hr]).
+    exact (mclosed_reach m ys I2 k _ z (I1 _ (or_introl eq_refl)) Hr').
+Qed.
+
+End MNTMVisits.
